@@ -94,6 +94,12 @@ let () =
     let c = MatOps.spgemm_saad sc a b false in
     show_strips ~canon:true (Dist.split sc c rpa cpb) c.Crs.ncols);
 
+  (* rank-by-rank model of mpi::product, storage order *)
+  reg "product_s" (fun t -> let a = t_crs t in let rpa = t_ivec t in let cpa = t_ivec t in
+    let b = t_crs t in let cpb = t_ivec t in
+    check_parts a rpa cpa; check_parts b cpa cpb;
+    show_strips ~sizes:false (Dist.dist_product sc (Dist.split sc a rpa cpa) (Dist.split sc b cpa cpb)) b.Crs.ncols);
+
   reg "rrows" (fun t -> let a = t_crs t in let rpa = t_ivec t in let cpa = t_ivec t in
     let b = t_crs t in let cpb = t_ivec t in
     check_parts a rpa cpa; check_parts b cpa cpb;
